@@ -141,7 +141,7 @@ def gen_config(r: random.Random, profile: str = "valid") -> Dict[str, Any]:
                                "outstandingShares": r.choice([100, 2000])}
         mode = r.choice(["one", "count", "count", "range", "range"])
         if mode == "count":
-            eff["numMarkets"] = r.choice([1, 2, 3, 5])
+            eff["numMarkets"] = r.choice([1, 2, 3, 5]) if r.random() < 0.97 else r.choice([17, 40, 70])
         elif mode == "range":
             lo = r.choice([0, 0, 1, 3, 10])
             eff["from"] = lo
@@ -165,12 +165,13 @@ def gen_config(r: random.Random, profile: str = "valid") -> Dict[str, Any]:
                         "noiseWeight": r.choice([{"expon": [1.0]}, [0.1, 0.2]]), "noiseScale": r.choice([0.001, [0.0001, 0.01]]),
                         "timeWindowSize": r.choice([[100, 200], 5, {"uniform": [3, 9]}]), "orderMargin": r.choice([[0.0, 0.1], 0.05])})
         mode = r.choice(["one", "count", "count", "range", "range"])
+        big = r.random() < 0.06  # populations beyond 256 / 1024 entities
         if mode == "count":
-            eff["numAgents"] = r.choice([1, 2, 3, 6])
+            eff["numAgents"] = r.choice([1, 2, 3, 6]) if not big else r.choice([257, 300, 520, 1100])
         elif mode == "range":
             lo = r.choice([0, 0, 2, 5])
             eff["from"] = lo
-            eff["to"] = lo + r.choice([0, 1, 2, 3])
+            eff["to"] = lo + (r.choice([0, 1, 2, 3]) if not big else r.choice([256, 299, 700]))
         if r.random() < 0.35:
             eff["prefix"] = r.choice([f"ag{g}_", f"Z{g}-"])
         split_into_chain(r, cfg, name, eff, ("from", "to"), ("from", "to"), "a",
